@@ -104,6 +104,7 @@ def register(reg):
         res.append(("alias-redirect-site-found", found, "if rule.alias and rule.map.redirect_defaults: raise RequestAliasRedirect(...)"))
         return res
     _register_defaults_rule(reg)
+    _register_alias_redirect(reg)
 
 
 def _register_defaults_rule(reg):
@@ -120,4 +121,25 @@ def _register_defaults_rule(reg):
             "implies(result, not self.build_only and self.defaults is not None)",
         ],
         raises={},
+    )
+
+
+def _register_alias_redirect(reg):
+    """MapAdapter.make_alias_redirect_url (body; call sites use the summary in c03_match): the canonical URL that
+    build() gives for the matched endpoint and values, with the caller's query string appended unchanged"""
+    AdM = reg.models["MapAdapterM"] if "MapAdapterM" in reg.models else None
+    Ad2 = reg.model("MapAdapterB", cls="werkzeug/routing/map.py:MapAdapter", fields={})
+    reg.ufunc("uf_build_ext", ["str", "opaque:values", "str"], "str")
+    reg.contract("werkzeug/routing/map.py:MapAdapter.build", prop="C12", trusted=True, modifies=[],
+                 params={"endpoint": "str", "values": "opaque:values", "method": "str", "force_external": "bool", "append_unknown": "bool"},
+                 param_names=["self", "endpoint", "values", "method", "force_external", "append_unknown"],
+                 returns="str", ensures=["result == uf_build_ext(endpoint, values, method)"],
+                 note="the exec-generated builder (C04 bounded tier); here only: a function of endpoint, values, method")
+    reg.contract(
+        "werkzeug/routing/map.py:MapAdapter.make_alias_redirect_url#verify", prop="C12", self_model=Ad2,
+        params={"path": "str", "endpoint": "str", "values": "opaque:values", "method": "str", "query_args": "str"},
+        returns="str", modifies=[],
+        ensures=["result == uf_build_ext(endpoint, values, method) + (('?' + query_args) if len(query_args) > 0 else '')",
+                 "result != path"],
+        raises={"AssertionError": "uf_build_ext(endpoint, values, method) + (('?' + query_args) if len(query_args) > 0 else '') == path"},
     )
